@@ -32,7 +32,7 @@ def main(c):
             variants = extra.get(sc, [None])
             for vi, var in enumerate(variants):
                 args_tail = list(var) if var else []
-                r = vlib.run([exe, 'count', sc, base] + args_tail, env=env, cpu_limit=600)
+                sigmap = os.path.join(base, 'sigmap'); r = vlib.run([exe, 'count', sc, base] + args_tail, env=dict(env, C19_SIGMAP=sigmap), cpu_limit=600)
                 out = r.stdout.decode('latin1')
                 m = re.search(r'K (\d+) SITES (\d+)', out)
                 if r.returncode != 0 or not m:
@@ -50,7 +50,23 @@ def main(c):
                 step = 1
                 if not thorough and K > 900:
                     step = max(1, K // 700)          # quick: about 700 evenly spaced indices on the very long histories (thorough enumerates all)
-                for k in range(1, K + 1, step):
+                ks = set(range(1, K + 1, step))
+                # per call stack: the first two, a middle one and the last request of the fault-free history are always failed
+                try:
+                    import struct as _st
+                    raw = open(sigmap, 'rb').read(); sigs = _st.unpack('<%dQ' % (len(raw) // 8), raw); os.unlink(sigmap)
+                except Exception:
+                    sigs = ()
+                if len(sigs) == K:
+                    occ = {}
+                    for i, h in enumerate(sigs):
+                        occ.setdefault(h, []).append(i + 1)
+                    for h, lst in occ.items():
+                        ks.update(lst[:2]); ks.add(lst[-1]); ks.add(lst[len(lst) // 2])
+                    c.count('distinct_allocation_call_stacks_%s' % sc, len(occ)); c.count('distinct_allocation_call_stacks', len(occ))
+                else:
+                    c.fail_harness('no call-stack map for scenario %s (%d signatures for K=%d)' % (sc, len(sigs), K))
+                for k in sorted(ks):
                     jobs.append((sc, k, args_tail))
         c.count('scenarios', len(set(j[0] for j in jobs)))
 
